@@ -147,6 +147,39 @@ fn c08_case(p: &conc::RaceProgram, reps: u32) -> CaseReport {
 }
 
 // ------------------------------------------------------------------------------------------
+// C14 (concurrent part)
+// ------------------------------------------------------------------------------------------
+
+fn c14d_case(p: &conc::ScanProgram, reps: u32) -> CaseReport {
+    let mut counters = BTreeMap::new();
+    let mut nontrivial = None;
+    let mut failure = None;
+    let mut evaluations = 0;
+    let mut sample = None;
+    for rep in 0..reps {
+        let out = conc::run_scan_program(p);
+        evaluations += 1;
+        *counters.entry(format!("mode.{}", if p.persistent { "persistent" } else { "memory" })).or_insert(0) += 1;
+        *counters.entry("scans".into()).or_insert(0) += out.scans;
+        *counters.entry("scans_overlapping_writer_calls".into()).or_insert(0) += out.scans_overlapping_churn;
+        if p.stable > 256 {
+            *counters.entry("more_than_256_keys".into()).or_insert(0) += 1;
+        }
+        if out.scans_overlapping_churn > 0 {
+            nontrivial = Some(env::fnv(format!("{p:?}{rep}").as_bytes()));
+            if sample.is_none() {
+                sample = Some(json!({"stable_keys": p.stable, "writers": p.writers.len(), "writer_ops": p.writers.iter().map(|w| w.len()).collect::<Vec<_>>(), "first_writer_ops": p.writers[0].iter().take(12).map(|o| format!("{o:?}")).collect::<Vec<_>>(), "scans": out.scans, "scans_overlapping_writer_calls": out.scans_overlapping_churn}));
+            }
+        }
+        if let Some((sig, msg)) = out.failure {
+            failure = Some((sig, msg, json!({"program": serde_json::to_value(p).unwrap()})));
+            break;
+        }
+    }
+    CaseReport { failure, nontrivial, counters, sample, evaluations }
+}
+
+// ------------------------------------------------------------------------------------------
 // worker / parent plumbing
 // ------------------------------------------------------------------------------------------
 
@@ -182,6 +215,26 @@ pub fn worker(id: &str, seed: u64, lane: u64, count: u32, outdir: &str, tier: Ti
                 .run(&strat, |p| {
                     let counting = !failed.load(std::sync::atomic::Ordering::Relaxed);
                     let r = c08_case(&p, tier.pick(2, 4));
+                    absorb(&agg, &r, counting);
+                    match r.failure {
+                        Some((sig, msg, _)) => {
+                            failed.store(true, std::sync::atomic::Ordering::Relaxed);
+                            Err(TestCaseError::fail(format!("[{sig}] {msg}")))
+                        }
+                        None => Ok(()),
+                    }
+                })
+                .map_err(|e| match e {
+                    TestError::Fail(r, v) => TestError::Fail(r, serde_json::to_value(&v).unwrap()),
+                    TestError::Abort(r) => TestError::Abort(r),
+                })
+        }
+        "C14D" => {
+            let strat = conc::scan_program_strategy();
+            runner
+                .run(&strat, |p| {
+                    let counting = !failed.load(std::sync::atomic::Ordering::Relaxed);
+                    let r = c14d_case(&p, tier.pick(2, 4));
                     absorb(&agg, &r, counting);
                     match r.failure {
                         Some((sig, msg, _)) => {
@@ -246,6 +299,11 @@ fn meta(id: &str, tier: Tier) -> Meta {
             rule: "proptest-generated racing programs on a persistent store with a 24-64 block device (freed blocks are reused at once), cache on/off, both I/O paths: one writer thread per key (1-4 keys; stamped values of 14 B .. 3 blocks that identify key and generation every 32 bytes, or 8-byte counters) issuing put / delete / re-create with another length / update_ttl / persist / increment / compare-and-swap on its own key, 1-3 reader threads looping over get / get_bytes / range_query / compare-and-swap probes on all keys, and a thread calling flush() in a loop; schedules: free, jitter, or bounded parks at the named points (after the extent is located, after the device read, before retirement, before release, before publish ...). The writer publishes started/completed state numbers around each call; a reader samples lo=completed before and hi=started after its call. A returned value must be one complete generation of that key whose state number lies in [lo, hi]; not-found only if an absent state lies in the window (or, for a scan, the key was being rewritten); StaleExtent only if hi > lo; any other error, a foreign key's bytes, marker bytes, padding or a mixture fails; increments and swaps by the sole modifier must return exactly the model's result; no device write may hit the blocks of an extent while a reader is parked between locating and reading it. Non-trivial: an execution with at least one read from the device and at least one read that overlapped a modification of its key. Evaluations = program executions.",
             assumptions: vec!["schedules are sampled and steered, not enumerated".into(), "the no-overwrite check covers readers parked at the after_sector_load point (the controller knows sector and length there)".into()],
         },
+        "C14D" => Meta {
+            cases: tier.pick(900, 16_000),
+            rule: "proptest-generated concurrent scan programs, memory-only and persistent: 6-330 stable keys (inserted before the threads start, never touched; > 256 exercises the scan's re-pin path) interleaved lexicographically with churn keys; 2-3 writers insert / insert_bytes / insert_if_absent / delete / flush the churn keys (even churn keys have one owning writer, odd ones are shared by all writers so creation races deletion of the same key); 1-2 scanners issue range queries with generated windows and limits. Each result must be strictly ascending, inside the bounds, at most limit long, every value a genuine stamped value of its key, every stable key inside the returned window present exactly once, and an owned churn key whose delete completed before the scan began (and that was not re-created until it ended) must not appear. After all threads finished the full range query, get() of every key, len() and both index key lists must agree. Non-trivial: an execution with a scan that overlapped writer calls.",
+            assumptions: vec!["schedules are sampled and steered, not enumerated".into()],
+        },
         _ => unreachable!(),
     }
 }
@@ -271,6 +329,9 @@ pub fn run(id: &'static str, tier: Tier, seed: u64, replay: Option<&str>) -> i32
                 env::wait_reaper();
             }
         }
+        if id == "C08" {
+            return replay_sub("C08", path);
+        }
         if code == 1 {
             println!("VIOLATION property={id} replay={path}");
         } else {
@@ -278,6 +339,13 @@ pub fn run(id: &'static str, tier: Tier, seed: u64, replay: Option<&str>) -> i32
         }
         return code;
     }
+    let (code, ev) = run_campaign(id, id, tier, seed);
+    ev.write();
+    code
+}
+
+/// Run the worker campaign `id`, reporting violations under `property`.
+pub fn run_campaign(id: &'static str, property: &'static str, tier: Tier, seed: u64) -> (i32, Evidence) {
     let started = std::time::Instant::now();
     let m = meta(id, tier);
     let lanes = env::threads();
@@ -295,7 +363,7 @@ pub fn run(id: &'static str, tier: Tier, seed: u64, replay: Option<&str>) -> i32
             .expect("spawn worker");
         children.push((lane, child));
     }
-    let mut ev = Evidence::new(id, tier, seed, "exploration", m.rule);
+    let mut ev = Evidence::new(property, tier, seed, "exploration", m.rule);
     ev.started = started;
     ev.assumptions = m.assumptions;
     let mut counters: BTreeMap<String, u64> = BTreeMap::new();
@@ -325,12 +393,12 @@ pub fn run(id: &'static str, tier: Tier, seed: u64, replay: Option<&str>) -> i32
             let f = l["WORKER-FAIL ".len()..].trim();
             let mut doc: Value = serde_json::from_str(&std::fs::read_to_string(f).unwrap_or_default()).unwrap_or_default();
             let sig = doc["signature"].as_str().unwrap_or("unknown").to_string();
-            doc["property"] = json!(id);
-            doc["engine"] = json!("conc");
-            if !env::report_violation(id, &sig, &doc) {
+            doc["property"] = json!(property);
+            doc["engine"] = json!(format!("conc:{id}"));
+            if !env::report_violation(property, &sig, &doc) {
                 code = 1;
                 ev.violations += 1;
-                eprintln!("fxv: {id}: [{sig}] {}", doc["message"].as_str().unwrap_or(""));
+                eprintln!("fxv: {property} ({id}): [{sig}] {}", doc["message"].as_str().unwrap_or(""));
             }
             ev.set("failure", json!({"signature": sig, "message": doc["message"]}));
         } else {
@@ -351,6 +419,43 @@ pub fn run(id: &'static str, tier: Tier, seed: u64, replay: Option<&str>) -> i32
     ev.evaluations = ev.evaluations.max(1);
     ev.set("class_counts", json!(counters));
     ev.set("workers", json!(lanes));
-    ev.write();
+    (code, ev)
+}
+
+/// Summary of a sub-campaign for folding into another property's evidence.
+pub fn sub_summary(ev: &Evidence) -> Value {
+    json!({
+        "executions": ev.evaluations,
+        "distinct_nontrivial": ev.nontrivial.len(),
+        "rule": ev.rule,
+        "samples": ev.samples.iter().take(2).cloned().collect::<Vec<_>>(),
+        "class_counts": ev.extra.get("class_counts").cloned().unwrap_or(Value::Null),
+        "failure": ev.extra.get("failure").cloned().unwrap_or(Value::Null),
+    })
+}
+
+/// Replay of a concurrent sub-campaign failure: re-execute the saved program.
+pub fn replay_sub(id: &str, path: &str) -> i32 {
+    let doc: Value = serde_json::from_str(&std::fs::read_to_string(path).expect("read")).expect("json");
+    let property = doc["property"].as_str().unwrap_or("?").to_string();
+    let mut code = 0;
+    for _ in 0..60 {
+        let failed = match id {
+            "C14D" => serde_json::from_value::<conc::ScanProgram>(doc["replay"]["program"].clone()).ok().and_then(|p| c14d_case(&p, 1).failure),
+            "C08" => serde_json::from_value::<conc::RaceProgram>(doc["replay"]["program"].clone()).ok().and_then(|p| c08_case(&p, 1).failure),
+            _ => None,
+        };
+        if let Some((sig, msg, _)) = failed {
+            println!("replay: reproduced [{sig}] {msg}");
+            code = 1;
+            break;
+        }
+    }
+    env::wait_reaper();
+    if code == 1 {
+        println!("VIOLATION property={property} replay={path}");
+    } else {
+        println!("replay: the saved program passes on this tree (60 executions)");
+    }
     code
 }
